@@ -102,7 +102,8 @@ class Universe:
         self.sktree = core.Tree(self.site)
         self.sk = pf.Module(self.sktree, SK_REL)
         # statement-level helper calls inlined one level (sa.inline): rules see one body per method
-        self.km = inline.InlinedModule(tree, KR)
+        # (_check_length_scale stays a call: the isotropic-index rule keys on it)
+        self.km = inline.InlinedModule(tree, KR, skip=("_check_length_scale",))
         self._mro = {}
 
     def resolve(self, mod, base):
@@ -2235,6 +2236,64 @@ def rule_scalar_accumulator(chk, uni, prog):
            nontrivial=False)
 
 
+
+# ----------------------------------------------------------------------------
+# round 14: a possibly 0-d (isotropic) length scale is not indexed
+# ----------------------------------------------------------------------------
+def rule_isotropic_index(chk, uni):
+    km = uni.km
+    src_fn = km.functions.get("_check_length_scale")
+    if src_fn is None:
+        raise core.AnalysisError("_check_length_scale vanished from kernels.py")
+    squeezes = any(isinstance(x, ast.Call) and (pf.call_name(x) or "").endswith("squeeze") for x in ast.walk(src_fn))
+    if not squeezes:
+        chk.ok("isotropic-index", "_check_length_scale no longer squeezes its argument: a 0-d result is not possible",
+               nontrivial=False)
+        return
+    n_inst = 0
+    for cname, cls in km.classes.items():
+        for mname, fn in pf.methods(cls).items():
+            if mname in getattr(km, "absorbed", ()):
+                continue
+            defs = fn_defs(fn)
+            seeds = {nm for nm, ds in defs.items() for st, v, t in ds
+                     if isinstance(v, ast.Call) and pf.call_name(v) == "_check_length_scale" and isinstance(t, ast.Name)}
+            if not seeds:
+                continue
+            group = set(seeds)
+            changed = True
+            while changed:
+                changed = False
+                for nm, ds in defs.items():
+                    if nm not in group and any(isinstance(v, ast.Name) and v.id in group for st, v, t in ds):
+                        group.add(nm)
+                        changed = True
+            subs = [x for x in pf.walk_no_nested(fn) if isinstance(x, ast.Subscript) and isinstance(x.value, ast.Name)
+                    and x.value.id in group and isinstance(x.ctx, ast.Load)]
+            if not subs:
+                continue
+            n_inst += 1
+            tested = False
+            for x in pf.walk_no_nested(fn):
+                if isinstance(x, ast.Call) and (pf.call_name(x) or "").split(".")[-1] in ("ndim", "isscalar", "iterable", "atleast_1d", "size") \
+                        and x.args and isinstance(x.args[0], ast.Name) and x.args[0].id in group:
+                    tested = True
+                if isinstance(x, ast.Attribute) and x.attr in ("ndim", "shape", "size") and isinstance(x.value, ast.Name) \
+                        and x.value.id in group:
+                    tested = True
+            where = "%s.%s" % (cname, mname)
+            inst = "%s: the length scale from _check_length_scale is indexed only after its 0-d (isotropic) form was handled" % where
+            if tested:
+                chk.ok("isotropic-index", inst)
+            else:
+                chk.violation("isotropic-index", KR, where, "index of the checked length scale", subs[0].lineno,
+                              "_check_length_scale squeezes an isotropic length scale (the default of the RBF base class, "
+                              "a scalar or a length-1 array) to a 0-d array, and `%s` indexes the result without looking at "
+                              "its dimension: IndexError for the isotropic form that the base class accepts"
+                              % pf.src(subs[0])[:40], instance=inst)
+    chk.count("methods indexing a checked length scale", n_inst)
+
+
 # ----------------------------------------------------------------------------
 def analyse(chk):
     tree = chk.tree
@@ -2282,6 +2341,9 @@ def analyse(chk):
     chk.rule("scalar-accumulator", "a number-initialised accumulator is never indexed like an array before it was promoted")
     chk.guard(rule_scalar_accumulator, uni, prog)
     chk.floor("scalar-accumulator", 1, "summary instance")
+    chk.rule("isotropic-index", "a length scale that may be 0-d (isotropic) is not indexed before its dimension was handled")
+    chk.guard(rule_isotropic_index, uni)
+    chk.floor("isotropic-index", 2, "DiffAntisymRBF.__call__, diag, k_and_deriv")
     chk.rule("newton-girard", "list recursions that re-use earlier entries normalise each entry inside the loop, like their siblings")
     chk.guard(rule_newton_girard, uni)
     chk.floor("newton-girard", 4, "value and derivative recursions of DiffARBF and DiffAdditiveMixin")
@@ -2632,6 +2694,9 @@ def mutants(tree):
         Mutant("poly k_and_deriv accumulator starts as the float 0.0", KR, regex=True,
                old=r"(?:        #.*\n)*        dk = np\.zeros\(dot1\.shape, dtype=dot1\.dtype\)\n", new="        dk = 0.0\n",
                expect="scalar-accumulator"),
+        Mutant("antisym __call__ indexes the squeezed length scale directly", KR,
+               "        length_scale = self._get_length_scale(X)\n", "        length_scale = _check_length_scale(X[:, 1:], self.length_scale)\n",
+               count=1, expect="isotropic-index"),
         # Newton-Girard recursions (each mutant reverts one site of the fix)
         Mutant("ARBF.__call__ derivative recursion normalised at the summation", KR, fn=_revert_ng(0), expect="newton-girard"),
         Mutant("ARBF.k_and_deriv derivative recursion normalised at the summation", KR, fn=_revert_ng(1), expect="newton-girard"),
